@@ -61,6 +61,9 @@ class LazyContourList(object):
                 except BaseException as e:
                     e.args = (f"Event {idx}, {e.args[0]}",)
                     raise
+                # The cached contour is handed out to the user.
+                # Make sure it cannot be modified.
+                cont.setflags(write=False)
             else:
                 # Get the contour from deque
                 cont = self.contours[idx_q]
